@@ -7,6 +7,7 @@
 import Props.C19
 import Props.Family
 import Gen.SchemaFacts
+import Gen.Parsers
 namespace PM.Family.C19
 open PM.Dom
 open PM.FromDom
@@ -71,5 +72,20 @@ theorem walk_no_internal (P : Parser) (hS : P.S ∈ familySchemas) (hr : P.rules
     addAll P rootTag kids false (walkInit P isOpen pw) ≠ .error .internal ∧
     ∀ w, addAll P rootTag kids false (walkInit P isOpen pw) = .ok w → w.st.finish P.S ≠ .error .internal :=
   PM.C19.walk_no_internal P (family_facts _ hS).SchemaOk hr rootTag kids hk isOpen pw
+
+/-- `PM.C19.parse_no_internal` with its schema guards discharged for the bundled schema family -/
+theorem parse_no_internal_from_schema (P : Parser) (hS : P ∈ familyParsers) (rootTag : String)
+    (kids : List DNode) (hk : listOk true (fun _ => true) kids = true) :
+    parse P rootTag kids ≠ .error .internal :=
+  PM.C19.parse_no_internal P (family_facts _ (family_rulesOk P hS).2).SchemaOk (family_rulesOk P hS).1 rootTag
+    kids hk
+
+/-- `PM.C19.walk_no_internal` with its schema guards discharged for the bundled schema family -/
+theorem walk_no_internal_from_schema (P : Parser) (hS : P ∈ familyParsers) (rootTag : String)
+    (kids : List DNode) (hk : listOk true (fun _ => true) kids = true) (isOpen : Bool) (pw : WS) :
+    addAll P rootTag kids false (walkInit P isOpen pw) ≠ .error .internal ∧
+    ∀ w, addAll P rootTag kids false (walkInit P isOpen pw) = .ok w → w.st.finish P.S ≠ .error .internal :=
+  PM.C19.walk_no_internal P (family_facts _ (family_rulesOk P hS).2).SchemaOk (family_rulesOk P hS).1 rootTag
+    kids hk isOpen pw
 
 end PM.Family.C19
